@@ -238,6 +238,16 @@ def build_crafted(S, T, root):
     for v in ((ck + 1) % 256, (ck - 1) % 256, (ck + 128) % 256):
         add("checksum_wrong", refs.build(F, cksum=v))
     add("checksum_wrong", refs.build(F, cksum=b"%d" % (ck + 256)))
+    # numbers with more digits than any integer conversion accepts (Python refuses > 4300 digits)
+    for nd in (19, 400, 4299, 4300, 4301, 5000):
+        big = b"1" * nd
+        add("bodylength_wrong", refs.build(F, body_length=big))
+        add("checksum_wrong", refs.build(F, cksum=big))
+        add("checksum_wrong", refs.build(F, cksum=b"0" * nd + b"%03d" % ck))
+        add("non_numeric_tag", refs.build(F[:6] + [(big.decode(), "1")] + F[6:]))
+    # CheckSum is three digits: a value that is numerically right but spelled otherwise is not the frame that was sent
+    add("checksum_wrong", refs.build(F, cksum=b"0%03d" % ck))
+    add("checksum_wrong", refs.build(F, cksum=b"%d" % ck if ck < 100 else b"+%d" % ck))
     add("checksum_missing", good[: good.rindex(b"10=")])
     add("checksum_missing", good[:-1])
     add("checksum_missing", good[: good.rindex(b"10=")] + b"11=zz\x01")
@@ -390,9 +400,9 @@ def cause_of(buf, for_raise=False):
         return "no_checksum_field"
     head = len(fields[0]) + 1 + len(fields[1]) + 1
     trailer = len(fields[-1]) + 1
-    if int(v) != len(region) - head - trailer or not region.endswith(SOH):
+    if len(v) > 18 or int(v) != len(region) - head - trailer or not region.endswith(SOH):
         return "bodylength_mismatch"
-    if int(fields[-1][3:]) != refs.checksum(region[: len(region) - trailer]):
+    if len(fields[-1]) != 6 or int(fields[-1][3:]) != refs.checksum(region[: len(region) - trailer]):
         return "checksum_mismatch"
     return "well_formed"
 
@@ -466,9 +476,10 @@ _STRIP = b" \t\n\r\x0b\x0c\x1c\x1d\x1e\x1f\x85\xa0+_"
 
 
 def _ck_value(v):
-    v2 = v.translate(_LENIENT, _STRIP)
-    if v2.isdigit():
-        return int(v2)
+    # CheckSum(10) is always exactly three ASCII digits; any other spelling (more / fewer digits, sign, blanks) is
+    # not what a sender produced - "10=0112" for "10=112" is a single-byte corruption like any other
+    if len(v) == 3 and v.isdigit():
+        return int(v)
     return None
 
 
@@ -494,7 +505,7 @@ def frame_verdict(buf, consumed, raw):
     h2 = buf.find(SOH, h1 + 1) if h1 >= 0 else -1
     bl_ok = False
     te = -1
-    if h2 >= 0 and buf[h1 + 1: h1 + 3] == b"9=" and buf[h1 + 3: h2].isdigit():
+    if h2 >= 0 and buf[h1 + 1: h1 + 3] == b"9=" and buf[h1 + 3: h2].isdigit() and h2 - h1 - 3 <= 18:
         te = h2 + 1 + int(buf[h1 + 3: h2])
         if buf[te: te + 3] == b"10=" and buf[te - 1: te] == SOH:
             bl_ok = True
@@ -979,8 +990,7 @@ def run(ctx):
         "each read of the live loop returns exactly one fed chunk; the malformed input arrives as one read",
         "frames lost as collateral of a resync, whole-buffer discards and a disconnect decided by the session "
         "layer are unconstrained; only permanent blocking is reported",
-        "a checksum value that Python's int() reads as the right number (leading zero, surrounding white space) "
-        "is self-consistent and not demanded to fail",
+        "CheckSum is consistent only when it is spelled as exactly three digits equal to the byte sum",
         "the scripted live peer numbers consecutively (the garbled frame used its number) and answers a "
         "ResendRequest with a gap fill, as a conforming counterparty would",
     ]
